@@ -73,7 +73,7 @@ func newContainer(kind string, def int) (container, pal.Kind) {
 type C12Op struct {
 	K    string  `json:"k"` // set get fill wire wireused
 	I    int     `json:"i"`
-	V    int     `json:"v"`           // set: index into the pool; fill: count
+	V    int     `json:"v"`              // set: index into the pool; fill: count
 	Hist []C12Op `json:"hist,omitempty"` // wireused: what the destination lived through before
 	Def  int     `json:"def,omitempty"`
 }
